@@ -174,6 +174,55 @@ def stepMwv (site aS rS errCode s1 s2 : String) : Option String := do
     else consumeProcessor ty isErrTy out.1
   pure s!"ok {";".intercalate (out.2.map showVEv)} R={showDVals out.1} consume={showConsumed consumed}"
 
+/-! ### when and from what the chain is composed (harness/rt/middleware_lifetime.go) -/
+
+def stepSpecs (s : String) : List String := if s == "" then [] else s.splitOn "_"
+
+/-- Runs an `mwl` script on the model: state = caller's array + objects; output per call. -/
+def runLife (base arg : String) : List String → Nat → Life MwA MwR → List String → Option (List String)
+  | [], _, _, outs => some outs.reverse
+  | st :: rest, si, s, outs =>
+    match st.toList with
+    | 'N' :: site :: ':' :: ps =>
+      let provS := stepSpecs (String.ofList ps)
+      let oi := s.objs.length
+      let f := baseFn base (toString oi)
+      if site == 'c' || site == 'p' then
+        runLife base arg rest (si + 1) (s.step (.construct f true (specMws (20 * (oi + 1)) provS))) outs
+      else if (site == 'm' || site == 'r') && provS.isEmpty then
+        runLife base arg rest (si + 1) (s.step (.construct f false [])) outs
+      else none
+    | 'W' :: r =>
+      match (String.ofList r).splitOn ":" with
+      | [j, spec] => do
+        let j ← j.toNat?
+        runLife base arg rest (si + 1) (s.step (.write j (wrap (200 + si) (specW (200 + si) spec).pre (specW (200 + si) spec).post))) outs
+      | _ => none
+    | 'P' :: ':' :: r =>
+      let spec := String.ofList r
+      runLife base arg rest (si + 1) (s.step (.push (wrap (200 + si) (specW (200 + si) spec).pre (specW (200 + si) spec).post))) outs
+    | 'A' :: r =>
+      match (String.ofList r).splitOn ":" with
+      | [i, spec] => do
+        let i ← i.toNat?
+        if i < s.objs.length then
+          runLife base arg rest (si + 1) (s.step (.add i (wrap (300 + si) (specW (300 + si) spec).pre (specW (300 + si) spec).post))) outs
+        else none
+      | _ => none
+    | 'C' :: r => do
+      let i ← (String.ofList r).toNat?
+      let o ← s.objs[i]?
+      runLife base arg rest (si + 1) s (showRun (o.invoke arg) :: outs)
+    | 'G' :: r =>
+      match (String.ofList r).splitOn "x" with
+      | [i, n] => do
+        let i ← i.toNat?
+        let n ← n.toNat?
+        let o ← s.objs[i]?
+        runLife base arg rest (si + 1) s (s!"calls={n} uniform {showRun (o.invoke "@")}" :: outs)
+      | _ => none
+    | _ => none
+
 def stepMiddleware (op : String) (args : List String) : Option String :=
   match op, args with
   | "mwi", [mset, name, specs, added, reps, base, arg] => do
@@ -228,6 +277,17 @@ def stepMiddleware (op : String) (args : List String) : Option String :=
     pure s!"ok calls={g * k * r} uniform {showRun (m.invoke "@")}"
   | "mwv", [site, aS, rS, errCode, s1, s2] =>
     some ((stepMwv site aS rS errCode s1 s2).getD "bad-op")
+  | "mwl", [extra, ctorS, base, arg, script] =>
+    match extra.toNat? with
+    | none => some "bad-op"
+    | some e =>
+      let c := parseSpecs ctorS
+      let filler : List (Middleware MwA MwR) := List.replicate e (wrap 999 id id)
+      let s0 : Life MwA MwR := { arr := specMws 0 c ++ filler, k := c.length, objs := [] }
+      match runLife base arg (script.splitOn "+") 0 s0 [] with
+      | none => some "bad-op"
+      | some [] => some "ok ."
+      | some outs => some ("ok " ++ " | ".intercalate outs)
   | "wiring", [what] =>
     -- the model's wiring functions on symbolic lists
     let render (l : List String) := "-then-".intercalate l
